@@ -76,3 +76,24 @@ Theorem set_symbolic_ref_contract : forall d n t d' r,
   end.
 Proof. exact set_symbolic_ref_spec. Qed.
 Print Assumptions set_symbolic_ref_contract.
+
+(* ---------- the packed-refs file as text (Model/PackedFile.v) ---------- *)
+From DV Require Import PackedFile PackedFileP.
+
+(* any list of refs with well-formed names, hex ids and hex peeled values,
+   written with the header as the object store always does, is read back by
+   get_packed_refs exactly: same names, ids, peeled values, order *)
+Theorem packed_refs_file_roundtrip : forall l, Forall (fun r => valid_pref r = true) l ->
+  read_packed (write_packed true l) = Some l.
+Proof. exact roundtrip_peeled. Qed.
+Print Assumptions packed_refs_file_roundtrip.
+
+(* written without peeled values (no header) a non-empty list reads back with
+   every peeled value absent *)
+Theorem packed_refs_file_roundtrip_plain : forall l, Forall (fun r => valid_pref r = true) l -> l <> [] ->
+  read_packed (write_packed false l) = Some (map drop_peeled l).
+Proof. exact roundtrip_plain. Qed.
+Print Assumptions packed_refs_file_roundtrip_plain.
+
+Example an_empty_file_is_not_readable : read_packed (write_packed false []) = None.
+Proof. reflexivity. Qed.
